@@ -10,9 +10,12 @@ Ties, checked on every run:
   * Model/PchipAD.v (tape + torch's VJP rules, PrimFloat) == torch.autograd.grad through PCHIP1D: forward values
     bit-exact, NaN/inf/finite classification of every gradient entry exact, values within 1e-9; the model variant
     (with / without the double where) is selected by inspecting the source, fail closed.
-Falsifier on the real code: central finite differences against torch.autograd through SVBackendImpl on hand-built
-SequenceData (1..6 atoms; losses from occupations / final state / energy; gradients w.r.t. per-step Omega, delta,
-phi, U, initial state) and through real Pulser sequences with torch-parametrised waveforms; every gradient finite.
+Falsifier on the real code: torch.autograd through SVBackendImpl on hand-built SequenceData (1..6 atoms; losses from
+occupations / final state / energy; gradients w.r.t. per-step Omega, delta, phi, U, initial state) against
+(1) autograd through an independent dense matrix_exp evolution, every entry (primary oracle: exact derivative of the
+exact evolution) and (2) central differences of the emulated result (forward at krylov tolerance 1e-13, because a
+difference quotient amplifies the forward's tolerance-level error by 1/step); central differences through real Pulser
+sequences with torch-parametrised waveforms; every gradient finite.  Open known finding: energy-gradient.
 """
 import ast
 import json
@@ -922,7 +925,7 @@ META = {
     "category": "proof",
     "technique": "Coq proofs over the ring model of C06 (derivative operators) and over a Gallina reverse-mode AD "
                  "evaluator of PCHIP1D (R + PrimFloat) + exact / bit-exact correspondences with torch + "
-                 "finite-difference falsifier through the real emu-sv backend",
+                 "dense-autograd-reference / finite-difference falsifier through the real emu-sv backend",
     "text": ("Proved for every N and every commutative *-ring: DHDOmega/Delta/U/PhiSparse applied to v equal "
              "H(theta + t e) v - H(theta) v divided by t (the Hamiltonian is affine in each parameter and in "
              "e = exp(i phi); exp(i(phi+pi/2)) is the derivative of exp(i phi) over C), the lower triangle of U is "
@@ -931,7 +934,7 @@ META = {
              "or reverse pass of PCHIP1D divides by zero (all values, strictly increasing knots); refuted for the "
              "source as it is (R: zero divisor; binary64: NaN gradient for y = 0,1,1,0). Validated only: that the "
              "models are the code (exact / bit-exact ties each run) and the accuracy of the Krylov Frechet derivative "
-             "(central differences)."),
+             "(dense autograd reference + central differences)."),
     "note": ("Trusted: Coq kernel+VM, stdlib real axioms, the hand-written models (tied each run), PrimFloat == torch "
              "float64. Findings: F-16 pchip-nan-gradient; energy-gradient (Energy observable is not differentiable "
              "correctly)."),
